@@ -185,11 +185,11 @@ pub fn c13() -> DiffProp {
     );
     seq.enumerated = Some((5, 7, true));
     seq.cfg = cfg_no_range_identity;
-    let mut conv = Fam::custom("conversions", Box::new(conversions), 6_000, 150_000, 120);
+    let mut conv = Fam::custom("conversions", Box::new(conversions), 40_000, 400_000, 120);
     conv.cfg = cfg_no_range_identity;
-    let mut rnd = Fam::custom("random_ops", Box::new(random_ops), 4_000, 100_000, 160);
+    let mut rnd = Fam::custom("random_ops", Box::new(random_ops), 25_000, 300_000, 160);
     rnd.cfg = cfg_no_range_identity;
-    let mut gen5 = Fam::profile("general", { let mut p = profiles::c05(); p.illtyped = 4; p }, 4_000, 60_000, 500);
+    let mut gen5 = Fam::profile("general", { let mut p = profiles::c05(); p.illtyped = 4; p }, 20_000, 200_000, 500);
     gen5.cfg = DiffCfg::default;
     DiffProp {
         id: "C13",
